@@ -1058,4 +1058,113 @@ def WF : Msg → Prop
   | .write _ op key _ => bar ∉ op ∧ bar ∉ key
   | _ => False
 
+/-! ### the executable acceptor versus the declarative meaning of a trace -/
+
+/-- Declarative meaning of a trace: the events can be consumed one by one, every request opening a
+    new conversation, every reply advancing ONE conversation of its operation ID by a legal step. -/
+inductive Explained : Config → List Ev → Config → Prop where
+  | nil (c : Config) : Explained c [] c
+  | req (c c' : Config) (op : Bytes) (k : Kind) (es : List Ev) :
+      Explained (c ++ [{ op := op, kind := k, ph := init k }]) es c' → Explained c (.req op k :: es) c'
+  | rep (c c' : Config) (op : Bytes) (t : RType) (es : List Ev) (i : Nat) (r : Req) (p' : Ph) :
+      c[i]? = some r → r.op = op → delta r.ph t = some p' →
+      Explained (c.set i { r with ph := p' }) es c' → Explained c (.rep op t :: es) c'
+
+theorem dedup_mem (x : Config) (l : List Config) (h : x ∈ dedup l) : x ∈ l := by
+  induction l with
+  | nil => simp [dedup] at h
+  | cons c cs ih =>
+    unfold dedup at h
+    by_cases hc : c ∈ cs
+    · simp only [hc, if_true] at h
+      exact List.mem_cons_of_mem _ (ih h)
+    · simp only [hc, if_false] at h
+      rcases List.mem_cons.mp h with rfl | h'
+      · simp
+      · exact List.mem_cons_of_mem _ (ih h')
+
+theorem advance_inv (op : Bytes) (t : RType) (cfg x : Config) (h : x ∈ advance op t cfg) :
+    ∃ i r p', cfg[i]? = some r ∧ r.op = op ∧ delta r.ph t = some p' ∧ x = cfg.set i { r with ph := p' } := by
+  induction cfg generalizing x with
+  | nil => simp [advance] at h
+  | cons c cs ih =>
+    simp only [advance, List.mem_append, List.mem_map] at h
+    rcases h with h | ⟨y, hy, rfl⟩
+    · by_cases hop : c.op = op
+      · simp only [hop, if_true] at h
+        cases hd : delta c.ph t with
+        | none => simp [hd] at h
+        | some p' =>
+          simp only [hd, List.mem_singleton] at h
+          exact ⟨0, c, p', by simp, hop, hd, by simp [h, hop]⟩
+      · simp [hop] at h
+    · obtain ⟨i, r, p', hi, hop, hd, rfl⟩ := ih y hy
+      exact ⟨i + 1, r, p', by simpa using hi, hop, hd, by simp⟩
+
+/-- The executable acceptor computes exactly the declarative meaning: a configuration survives iff the
+    trace can be explained from one of the starting configurations to it. -/
+theorem accRun_iff (cs : AccSt) (es : List Ev) (c' : Config) :
+    c' ∈ accRun cs es ↔ ∃ c ∈ cs, Explained c es c' := by
+  induction es generalizing cs with
+  | nil =>
+    simp only [accRun]
+    constructor
+    · intro h; exact ⟨c', h, .nil c'⟩
+    · rintro ⟨c, hc, he⟩; cases he; exact hc
+  | cons e es ih =>
+    simp only [accRun]
+    rw [ih]
+    cases e with
+    | req op k =>
+      simp only [accStep]
+      constructor
+      · rintro ⟨c1, hc1, he⟩
+        obtain ⟨c, hc, rfl⟩ := List.mem_map.mp hc1
+        exact ⟨c, hc, .req c c' op k es he⟩
+      · rintro ⟨c, hc, he⟩
+        cases he with
+        | req _ _ _ _ _ he' => exact ⟨_, List.mem_map.mpr ⟨c, hc, rfl⟩, he'⟩
+    | rep op t =>
+      simp only [accStep]
+      constructor
+      · rintro ⟨c1, hc1, he⟩
+        obtain ⟨c, hc, hadv⟩ := List.mem_flatMap.mp (dedup_mem _ _ hc1)
+        obtain ⟨i, r, p', hi, hop, hd, rfl⟩ := advance_inv op t c c1 hadv
+        exact ⟨c, hc, .rep c c' op t es i r p' hi hop hd he⟩
+      · rintro ⟨c, hc, he⟩
+        cases he with
+        | rep _ _ _ _ _ i r p' hi hop hd he' =>
+          exact ⟨_, accStep_rep_mem cs c hc op t i r p' hi hop hd, he'⟩
+
+
+/-- Every conversation state in an explained trace is reached by the automaton from the request's
+    initial phase over the replies attributed to it. -/
+def Reach (r : Req) : Prop := ∃ ts, run (init r.kind) ts = some r.ph
+
+theorem explained_reach (c c' : Config) (es : List Ev) (h : Explained c es c')
+    (hc : ∀ r ∈ c, Reach r) : ∀ r ∈ c', Reach r := by
+  induction h with
+  | nil c => exact hc
+  | req c c' op k es _ ih =>
+    apply ih
+    intro r hr
+    rcases List.mem_append.mp hr with hr | hr
+    · exact hc r hr
+    · simp at hr; subst hr; exact ⟨[], by simp [run]⟩
+  | rep c c' op t es i r p' hi hop hd _ ih =>
+    apply ih
+    intro x hx
+    obtain ⟨j, hj, hjx⟩ := List.getElem_of_mem hx
+    have hj' : j < c.length := by simpa using hj
+    by_cases hij : i = j
+    · subst hij
+      simp [List.getElem_set] at hjx
+      subst hjx
+      have hr : r ∈ c := List.mem_of_getElem? hi
+      obtain ⟨ts, hts⟩ := hc r hr
+      exact ⟨ts ++ [t], by rw [run_append, hts]; simp [run, hd]⟩
+    · simp [List.getElem_set, hij] at hjx
+      subst hjx
+      exact hc _ (List.getElem_mem hj')
+
 end PB.DbApi
